@@ -176,7 +176,7 @@ def run(ctx):
         if k % 3 == 0:
             # markup that interrupts a run of character data: both pumps must still deliver the whole value
             base = rb.render_doc(case["doc"], 0)
-            for how in ("comment-in-text", "pi-in-text", "cdata-in-text"):
+            for how in ("comment-in-text", "pi-in-text", "cdata-in-text", "entity-in-text"):
                 alt = hb.respell(base, how)
                 if alt != base:
                     handlers_agree(ctx, alt, r.mod.Root, r.ctx, {**info, "key": (k, how), "respell": how}, tags_native_tree=f14)
